@@ -60,3 +60,46 @@ Theorem C02_closure_captures_by_value : forall mods n c e f clo v,
   with_env e (tick st0 (if is_callable clo then call mods n clo (tail_arg clo v) st0 else ret clo)).
 Proof. exact closure_captures_by_value. Qed.
 Print Assumptions C02_closure_captures_by_value.
+
+(* a finished result is stable under more fuel: the semantics is a partial function *)
+Theorem C02_eval_fuel_mono : forall mods n m c e b v r,
+  (n <= m)%nat -> eval mods n c e b v = r -> r <> Timeout -> eval mods m c e b v = r.
+Proof. exact eval_fuel_mono. Qed.
+Print Assumptions C02_eval_fuel_mono.
+
+Theorem C02_eval_program_fuel_mono : forall mods n m p r,
+  (n <= m)%nat -> eval_program mods n p = r -> r <> Timeout -> eval_program mods m p = r.
+Proof. exact eval_program_fuel_mono. Qed.
+Print Assumptions C02_eval_program_fuel_mono.
+
+(* ... for every judgement of the evaluator (terms, calls, chains, sequences, branches, fields,
+   string segments, imports, programs) *)
+Theorem C02_fuel_mono_all_judgements : forall mods n m, (n <= m)%nat -> mono_at mods n m.
+Proof. exact mono_all. Qed.
+Print Assumptions C02_fuel_mono_all_judgements.
+
+Theorem C02_eval_deterministic : forall mods n m c e b v,
+  eval mods n c e b v <> Timeout -> eval mods m c e b v <> Timeout ->
+  eval mods n c e b v = eval mods m c e b v.
+Proof. exact eval_deterministic. Qed.
+Print Assumptions C02_eval_deterministic.
+
+(* a match evaluates to Ok or []; on success the scope grows by the pattern's bindings, on
+   failure by its static binders, all nil (reading R3 of Lang.v); nothing else changes *)
+Theorem C02_match_verdict : forall n c e p v r e' w,
+  do_match n c e p v = Ret (r, e') w ->
+  (r = vok /\ exists b, pmatch n (c_tenv c) e [] p v = POk b /\ e' = b ++ e) \/
+  (r = vnil /\ pmatch n (c_tenv c) e [] p v = PFail /\ e' = nil_fill (binders p) ++ e).
+Proof. exact match_verdict. Qed.
+Print Assumptions C02_match_verdict.
+
+(* inside one pattern, a successful sub-match only adds bindings *)
+Theorem C02_pmatch_extends : forall n te outer p b v b',
+  pmatch n te outer b p v = POk b' -> exists d, b' = d ++ b.
+Proof. exact pmatch_extends. Qed.
+Print Assumptions C02_pmatch_extends.
+
+Theorem C02_bare_binder_always_succeeds : forall n c e x v,
+  do_match n c e (MIdentifier x) v = Ret (vok, (x, v) :: e) st0.
+Proof. exact bare_binder_always_succeeds. Qed.
+Print Assumptions C02_bare_binder_always_succeeds.
